@@ -24,10 +24,10 @@ sys.path.insert(0, HERE)
 
 from polarlint.model import Repo, AnalysisError  # noqa: E402
 from polarlint.core import Ob, Rule, Result, run_rules, run_mutants, violation_keys, write_evidence, load_known  # noqa: E402
-from polarlint.rules import conformance, libcontract, state, splice, pipeline, validate, flow, bayes, mechanisms, formulas, lattice, discipline, stats  # noqa: E402
+from polarlint.rules import conformance, libcontract, state, splice, pipeline, validate, flow, bayes, mechanisms, formulas, lattice, discipline, stats, sensitivity  # noqa: E402
 
 R = {}
-for mod in (conformance, libcontract, state, splice, pipeline, validate, flow, bayes, mechanisms, formulas, lattice, discipline, stats):
+for mod in (conformance, libcontract, state, splice, pipeline, validate, flow, bayes, mechanisms, formulas, lattice, discipline, stats, sensitivity):
     for k, v in mod.RULES.items():
         if k in R:
             raise SystemExit(f"duplicate rule id {k}")
@@ -86,6 +86,14 @@ PROPERTIES = {
         specs=[S("GUARD"), S("ORIGGUARD"), S("AFTERLOOP"), S("IMPLIED"), S("MARKLAST"), S("STATE", r"cli/common|program/condition|classmutable")],
         clause="only the source guard is marked as guard; the termination indicator derives from the source guard; after-loop arms condition on termination and take the "
                "limit; the conditional moment is a ratio over one negated-guard indicator. NOT decided: limits, divergence."),
+    "C10": dict(
+        specs=[S("PRODUCTRULE"), S("DIFFPARAM"), S("DEPCLOSURE"), S("ACTIONS", r"[Ss]ensitivity")],
+        clause="the emulated differentiation of a recurrence summand c*m is the product rule in every dependence case (c'*m + c*m*delta / c'*m / c*m*delta / nothing), decided by enumerating the paths "
+               "of the case analysis and comparing the collected terms as rational functions; parameter dependence of variables is closed transitively over both sections; initial values and closed forms "
+               "are differentiated with respect to the validated parameter symbol and the reported solution is that of the marked monomial; the sensitivity action analyses the normalised program. "
+               "NOT decided: that either method equals the derivative of the exact moment (values), agreement of the two methods, diff-defectiveness classification.",
+        technique="path enumeration over the case analysis of DiffRecBuilder.get_recurrence with the dependence tests as boolean atoms, exact rational-function comparison of the collected summands with the product rule, "
+                  "fixed-point-loop shape analysis of the dependence closure, def-use of the differentiation variable, CFG typestate of the sensitivity action"),
     "C11": dict(
         specs=[S("TAILBOUNDS"), S("KINDCONV"), S("CONVERSIONS"), S("AFTERLOOP", r"cumulant|central|tail_bound|get_all_cumulants"), S("INVINPUTS", r"identifier")],
         clause="the raw->cumulant recursion, the raw->central binomial sum and comb(n,k) are the textbook formulas (identities of rational functions over the source expressions, loop ranges included); "
